@@ -298,7 +298,9 @@ func (g *gen) sPanicky() *Node {
 		nd = leaf("panic,ptr", "var ", p, " *", g.ts(t), "\nfmt.Println(*", p, ")")
 	case 6:
 		a := g.name("a")
-		vt := g.anyType()
+		// the message names the dynamic type: types of the program are kept out of it (finding
+		// defined-type-through-native-any; the gc batch also renames package main)
+		vt := []*Type{tInt, tString, tBool, tFloat64, tUint8, {K: KSlice, Elem: tInt}}[g.rnd(6)]
 		g.noteAny(vt)
 		wrong := tString
 		if same(vt, tString) {
@@ -307,7 +309,7 @@ func (g *gen) sPanicky() *Node {
 		nd = leaf("panic,assert,iface", "var ", a, " any = ", g.expr(vt, 1), "\n_ = ", a, ".(", g.ts(wrong), ")")
 	default:
 		p := g.placeWhere(func(p place) bool { return p.t.under().K == KSlice })
-		if p == nil {
+		if p == nil || !g.opts.on("slice-bounds-panic") {
 			return nil
 		}
 		lo := g.name("lo")
@@ -771,7 +773,7 @@ func (g *gen) sSliceOps() *Node {
 	case 3: // copy, overlapping
 		nd = leaf("slice,copy", s, " := ", lit, "\n", t, " := make(", g.ts(st), ", ", 1+g.rnd(n), ")\nfmt.Println(\"copy\", copy(", t, ", ", s, "), copy(", s, "[1:], ", s, "), ", sh(s), ", ", sh(t), ")")
 	case 4: // append of a slice, of nothing, to nil
-		nd = leaf("slice,append,variadic", s, " := ", lit, "\n", t, " := append(", g.ts(st), "(nil), ", s, "[:2]...)\n", t, " = append(", t, ")\n", t, " = append(", t, ", ", s, "...)\n", s, "[0] = ", g.expr(et, 1), "\nfmt.Println(\"appends\", ", sh(s), ", ", sh(t), ")")
+		nd = leaf("slice,append,variadic", s, " := ", lit, "\n", t, " := append((", g.ts(st), ")(nil), ", s, "[:2]...)\n", t, " = append(", t, ")\n", t, " = append(", t, ", ", s, "...)\n", s, "[0] = ", g.expr(et, 1), "\nfmt.Println(\"appends\", ", sh(s), ", ", sh(t), ")")
 	default: // slice of an array and of a pointer to an array
 		at := &Type{K: KArray, N: n, Elem: et}
 		a := g.name("a")
